@@ -252,7 +252,10 @@ func runCase(c *Case, res []*regexp.Regexp, trace bool) (r Result) {
 	for _, n := range sent {
 		u := n.GetURL().GetRequest().URL
 		r.Sent = append(r.Sent, u.String())
-		if why := outOfScope(u, &c.Filter, res); why != "" {
+		if fs := foreignScheme(c.Text); fs != "" && n == cur {
+			// the request is for an http(s) URL, but the text it was made from names a URI of another scheme
+			r.Bad = append(r.Bad, "scheme\t"+u.String()+"\t"+signature(c, "scheme", u)+":text-names-"+fs)
+		} else if why := outOfScope(u, &c.Filter, res); why != "" {
 			r.Bad = append(r.Bad, why+"\t"+u.String()+"\t"+signature(c, why, u))
 		} else if note := literalNote(u, &c.Filter); note != "" {
 			r.Notes = append(r.Notes, note+"\t"+u.String())
